@@ -782,6 +782,31 @@ def pad(a, pad_width, mode='constant', constant_values=0):
                   [c] * before + arr.el + [c] * after)
 
 
+def concatenate(arrs, axis=0):
+  """1-D concatenation with NumPy's dtype promotion (np.append(arr, 0) with a
+  Python int promotes to int64)."""
+  items = []
+  for x in arrs:
+    arr, weak = _operand(x)
+    if arr is None:
+      arr = SymArray.from_numpy(_real_np.asarray(weak))
+    items.append(arr.flatten() if arr.ndim != 1 else arr)
+  if axis not in (0, None):
+    raise Unsupported('concatenate on axis != 0')
+  dt = _real_np.result_type(*[i.dtype for i in items])
+  el = []
+  for i in items:
+    el.extend(_cast_el(i.dtype, dt, x) for x in i.el)
+  return SymArray((len(el),), dt, el)
+
+
+def append(arr, values, axis=None):
+  a, _ = _operand(arr)
+  v = _real_np.asarray(values) if not isinstance(values, SymArray) else values
+  return concatenate([a.flatten(), v if isinstance(v, SymArray)
+                      else SymArray.from_numpy(_real_np.ravel(v))])
+
+
 def left_shift(a, b):
   return binop('lshift', a, b)
 
@@ -887,7 +912,8 @@ _SHIM = {
     'sum': sum_, 'array_equal': array_equal, 'array': array,
     'asarray': asarray, 'frombuffer': frombuffer, 'pad': pad,
     'nan_to_num': nan_to_num, 'median': median, 'shape': shape, 'ndim': ndim,
-    'all': all_, 'any': any_, 'count_nonzero': lambda a: (_ for _ in ()).throw(Unsupported('count_nonzero')),
+    'all': all_, 'any': any_, 'append': append, 'concatenate': concatenate,
+    'hstack': lambda xs: concatenate(xs), 'count_nonzero': lambda a: (_ for _ in ()).throw(Unsupported('count_nonzero')),
 }
 
 
